@@ -43,7 +43,21 @@ trait CvSame { fn a(Self) -> int32; }
 struct CvSame { v: int32 }
 impl CvSame { fn b(self: CvSame) -> int32 { self.v + 1 } }
 impl CvSame for int32 { fn a(self: int32) -> int32 { self * 2 } }
-struct CvGs[T] { pair: (T, int32), arr: [T; 2], d: dyn CvShow, v: T }
+enum CvOpt[T] { CvNone, CvSome(T) }
+struct CvGs[T] { pair: (T, int32), arr: [T; 2], d: dyn CvShow, opt: CvOpt[T], v: T }
+enum CvCol { CvRed, CvBlue }
+struct CvPt { x: int32 }
+trait CvWide { fn all(Self, int16, uint8, uint32, uint64, float32, float64, string, bool, unit, CvCol, CvPt, dyn CvShow, [int32; 2], Vec[int32], Ref[int32], (int32) -> int32, (Self, int8), CvOpt[int32]) -> uint16; }
+impl CvWide for int32 {
+    fn all(self: int32, a: int16, b: uint8, c: uint32, d: uint64, e: float32, f: float64, s: string, t: bool, u: unit, col: CvCol, p: CvPt, dy: dyn CvShow, arr: [int32; 2], v: Vec[int32], r: Ref[int32], g: (int32) -> int32, pr: (int32, int8), o: CvOpt[int32]) -> uint16 {
+        let _ = string_println(int16_to_string(a) + uint8_to_string(b) + uint32_to_string(c) + uint64_to_string(d) + s + bool_to_string(t) + unit_to_string(u) + float32_to_string(e) + float64_to_string(f) + CvShow::show(dy));
+        let k = match col { CvCol::CvRed => 1, CvCol::CvBlue => 2 };
+        let _ = string_println(int32_to_string(k + p.x + array_get(arr, 1) + vec_len(v) + ref_get(r) + g(self) + pr.0 + match o { CvOpt::CvSome(z) => z, CvOpt::CvNone => 0 }));
+        40000u16 + 30000u16
+    }
+}
+fn cv_wide[T: CvWide](x: T, d: dyn CvShow, y: T) -> uint16 { let v: Vec[int32] = vec_push(vec_new(), 9); x.all(1i16, 2u8, 3u32, 4u64, 0.5f32, 1.5, "s", true, (), CvCol::CvBlue, CvPt { x: 10 }, d, [5, 6], v, ref(7), cv_inc, (y, 8i8), CvOpt::CvSome(100)) }
+fn cv_wide2[T: CvWide](x: T, d: dyn CvShow, y: T) -> uint16 { let v: Vec[int32] = vec_new(); CvWide::all(x, 1i16, 2u8, 3u32, 4u64, 0.5f32, 1.5, "t", false, (), CvCol::CvRed, CvPt { x: 20 }, d, [5, 6], v, ref(7), cv_inc, (y, 8i8), CvOpt::CvNone) }
 struct CvE {}
 #![cv]
 #[derive(ToString,)]
@@ -174,11 +188,13 @@ pub(super) fn expr(g: &mut Gen, t: &T, scope: &Scope, d: usize, pre: &mut String
             let e3 = g.expr(t, scope, d, pre);
             let e4 = g.expr(t, scope, d, pre);
             let (gs, pa, gd) = (g.fresh("cvg"), g.fresh("cvq"), g.fresh("cvq"));
-            write!(pre, "let {gs} = CvGs {{ pair: ({e1}, cv_i(\"{tag} pair\", 7)), arr: [{e2}, {e3}], d: {dv}, v: {e4} }}; ", gs = gs, e1 = e1, e2 = e2, e3 = e3, e4 = e4, dv = dv, tag = tag).unwrap();
-            write!(pre, "let CvGs {{ pair: ({pa}, _), arr: _, d: {gd}, v: _ }} = {gs}; let _ = string_println(cv_showd({gd})); ", pa = pa, gd = gd, gs = gs).unwrap();
-            Some(match g.rng.below(3) {
+            let e5 = g.expr(t, scope, d, pre);
+            write!(pre, "let {gs} = CvGs {{ pair: ({e1}, cv_i(\"{tag} pair\", 7)), arr: [{e2}, {e3}], d: {dv}, opt: CvOpt::CvSome({e5}), v: {e4} }}; ", gs = gs, e1 = e1, e2 = e2, e3 = e3, e4 = e4, e5 = e5, dv = dv, tag = tag).unwrap();
+            write!(pre, "let CvGs {{ pair: ({pa}, _), arr: _, d: {gd}, opt: _, v: _ }} = {gs}; let _ = string_println(cv_showd({gd})); ", pa = pa, gd = gd, gs = gs).unwrap();
+            Some(match g.rng.below(4) {
                 0 => pa,
                 1 => format!("array_get({}.arr, {})", gs, g.rng.below(2)),
+                2 => format!("match {gs}.opt {{ CvOpt::CvSome(o) => o, CvOpt::CvNone => {gs}.v }}", gs = gs),
                 _ => format!("{}.v", gs),
             })
         }
@@ -303,6 +319,16 @@ fn shape_stmt(g: &mut Gen, sc: &Scope, which: usize, s: &mut String) {
             let e = g.expr(&T::I32, sc, 0, &mut pre);
             write!(s, "{pre}let _ = string_println(\"{tag} \" + CvD {{ x: {e} }}.to_string()); ", pre = pre, e = e, tag = tag).unwrap();
         }
+        // a trait method whose signature mentions every kind of type next to `Self` (also `Self` inside a tuple), called
+        // on a receiver of type-parameter type as `x.all(..)` and as `CvWide::all(x, ..)`
+        9 => {
+            g.feat("cov:trait-sig-every-type");
+            let mut pre = String::new();
+            let dv = dyn_source(g, sc, &mut pre);
+            let e = g.expr(&T::I32, sc, 0, &mut pre);
+            let f = if g.rng.chance(1, 2) { "cv_wide" } else { "cv_wide2" };
+            write!(s, "{pre}let _ = string_println(\"{tag} \" + uint16_to_string({f}({e}, {dv}, {k}))); ", pre = pre, tag = tag, f = f, e = e, dv = dv, k = g.rng.below(9)).unwrap();
+        }
         // `go` bound by `let` and followed by statements, `go` as the tail of a branch evaluated for effect and as a value
         _ => {
             g.feat("cov:go-positions");
@@ -321,7 +347,7 @@ fn shape_stmt(g: &mut Gen, sc: &Scope, which: usize, s: &mut String) {
 /// a statement of one of the shapes: at the current level, as the body of a two-round loop (followed and
 /// preceded by statements, and for `go` also as the loop's tail), or inside a branch taken at run time
 pub(super) fn stmt(g: &mut Gen, sc: &mut Scope, _depth: usize, s: &mut String) {
-    let n = if g.cfg.go_stmt { 10 } else { 9 };
+    let n = if g.cfg.go_stmt { 11 } else { 10 };
     let which = g.rng.below(n);
     let mut body = String::new();
     shape_stmt(g, sc, which, &mut body);
@@ -329,7 +355,7 @@ pub(super) fn stmt(g: &mut Gen, sc: &mut Scope, _depth: usize, s: &mut String) {
         0 => {
             g.feat("cov:ctx-loop-body");
             let i = g.fresh("cvl");
-            let tail = if which == 9 { format!("go || {{ string_println(\"{} loop-tail-go\") }}", i) } else { "()".to_string() };
+            let tail = if which == 10 { format!("go || {{ string_println(\"{} loop-tail-go\") }}", i) } else { "()".to_string() };
             write!(s, "let {i} = ref(0); while ref_get({i}) < 2 {{ let _ = ref_set({i}, ref_get({i}) + 1); {body}let _ = string_println(\"{i} round\"); {tail} }}; ", i = i, body = body, tail = tail).unwrap();
         }
         1 => {
